@@ -215,7 +215,7 @@ L:
 
 func firstPanicLine(s string) string {
 	for _, l := range strings.Split(s, "\n") {
-		if strings.HasPrefix(l, "panic:") {
+		if strings.HasPrefix(l, "panic:") || strings.HasPrefix(l, "fatal error:") {
 			return l
 		}
 	}
